@@ -114,6 +114,18 @@ pub fn main(args: &[String]) -> i32 {
             }
         }
     }
+    // all bit triples of the body under the word's own identifier (59 640 per word type): every 3-field interaction of reserved / non-reserved bits
+    let own = [0xE0u8, 0xE8, 0xF0, 0xE4];
+    for kind in 0..4 {
+        for a in 0..72 {
+            for b in (a + 1)..72 {
+                for c in (b + 1)..72 {
+                    structured += 1;
+                    cmp(kind, &with_body(own[kind], (1u128 << a) | (1u128 << b) | (1u128 << c)), &mut viol);
+                }
+            }
+        }
+    }
     // random: half with the right identifier (so that body bits decide), half fully random
     let mut rng = Rng::new(seed);
     let ids = [0xE0u8, 0xE8, 0xF0, 0xE4];
